@@ -10,6 +10,8 @@ import RSVerif.Model.Tables
 import RSVerif.Model.Spec
 import RSVerif.Model.Select
 import RSVerif.Model.Lazy
+import RSVerif.Model.EngineSeq
+import RSVerif.Model.TableInit
 
 open RS
 
@@ -271,6 +273,23 @@ def handle (st : Session) (line : String) : Session × String :=
     | some s, some pos, some size, some trunc, some delta, some a =>
       (st, showSymbols (ifft s a pos size trunc delta))
     | _, _, _, _, _, _ => (st, "bad-op")
+  | ["T", "fftseq", sched, pos, size, trunc, delta, syms] =>
+    -- the transliterated in-place loops (Model/EngineSeq.lean)
+    match parseSched sched, pos.toNat?, size.toNat?, trunc.toNat?, delta.toNat?, parseSymbols syms with
+    | some s, some pos, some size, some trunc, some delta, some a =>
+      let n := Nat.log2 size
+      (st, showSymbols (match s with
+        | .naive => naiveFftSeq a pos n trunc delta
+        | .twoLayer => twoFftSeq a pos n trunc delta))
+    | _, _, _, _, _, _ => (st, "bad-op")
+  | ["T", "ifftseq", sched, pos, size, trunc, delta, syms] =>
+    match parseSched sched, pos.toNat?, size.toNat?, trunc.toNat?, delta.toNat?, parseSymbols syms with
+    | some s, some pos, some size, some trunc, some delta, some a =>
+      let n := Nat.log2 size
+      (st, showSymbols (match s with
+        | .naive => naiveIfftSeq a pos n trunc delta
+        | .twoLayer => twoIfftSeq a pos n trunc delta))
+    | _, _, _, _, _, _ => (st, "bad-op")
   | ["T", "evalpoly", trunc, marks] =>
     -- marks: comma-separated marked positions; answer: the 65536 logs, comma-separated
     match trunc.toNat?, (splitList marks).mapM (·.toNat?) with
@@ -336,6 +355,12 @@ def dumpTables (dir : String) : IO Unit := do
   dumpNatFile (dir ++ "/skew.txt") 65535 skewLog
   dumpNatFile (dir ++ "/skewelem.txt") 65535 fun i => (skewElem i).toNat
   dumpNatFile (dir ++ "/logwalsh.txt") 65536 fun c => logWalshArr[c]!
+  -- the same tables produced by the transliterated construction algorithms (Model/TableInit.lean)
+  let (ie, il) := initExpLog
+  let isk := initSkew ie il
+  dumpNatFile (dir ++ "/init_exp.txt") 65536 fun k => ie.getD k 0
+  dumpNatFile (dir ++ "/init_log.txt") 65536 fun c => il.getD c 0
+  dumpNatFile (dir ++ "/init_skew.txt") 65535 fun i => isk.getD i 0
   -- products of the 16 unit symbols with every g^m: every mul16 / mul128 entry is an XOR of these
   dumpNatFile (dir ++ "/mulbasis.txt") (65536 * 16) fun t =>
     (gmul (BitVec.ofNat 16 (2 ^ (t % 16))) (gexpFast (t / 16))).toNat
